@@ -4,6 +4,7 @@ package rux
 // ghost counters, request construction, traced handlers.
 
 import (
+	"io"
 	"net/http"
 	"net/url"
 )
@@ -53,6 +54,38 @@ func (w *verifWriter) Write(b []byte) (int, error) {
 	return n, err
 }
 
+// ReadFrom makes the recording writer an io.ReaderFrom, like net/http's own
+// response: bytes that arrive this way before any WriteHeader count as
+// pre-commit output too.
+func (w *verifWriter) ReadFrom(src io.Reader) (int64, error) {
+	if w.whCalls == 0 {
+		w.preCommit++
+	}
+	var total int64
+	buf := make([]byte, 8)
+	for {
+		n, err := src.Read(buf)
+		w.body = append(w.body, buf[:n]...)
+		w.nbody += n
+		total += int64(n)
+		if err != nil {
+			return total, nil
+		}
+	}
+}
+
+// verifPlainReader is a source without WriteTo, so that io.Copy looks at the destination.
+type verifPlainReader struct{ data []byte }
+
+func (r *verifPlainReader) Read(p []byte) (int, error) {
+	if len(r.data) == 0 {
+		return 0, io.EOF
+	}
+	n := copy(p, r.data)
+	r.data = r.data[n:]
+	return n, nil
+}
+
 func (w *verifWriter) Flush() {
 	if w.whCalls == 0 {
 		w.preCommit++
@@ -64,6 +97,11 @@ func verifNewWriter() *verifWriter { return &verifWriter{hdr: http.Header{}} }
 
 func verifRequest(method, path string) *http.Request {
 	return &http.Request{Method: method, URL: &url.URL{Path: path}, Header: http.Header{}}
+}
+
+// verifRequestQ: a request with a query string.
+func verifRequestQ(method, path, rawQuery string) *http.Request {
+	return &http.Request{Method: method, URL: &url.URL{Path: path, RawQuery: rawQuery}, Header: http.Header{}}
 }
 
 // verifTrace is the ghost trace of handler events.
